@@ -150,7 +150,7 @@ func ruleEarlyExitInventory(c *Ctx, r *Report, clause string, floor int, pkgPref
 		desc := "early success exit in " + s.Fn
 		if reason, ok := table[s.Key]; ok {
 			desc += ": " + reason
-		} else if w.restatesTabled(table, s.Fn, skipCondParts(s.Atoms)) && w.decidesOnKnownInputs(c.VerifDir, s.Fn, s.Atoms) {
+		} else if w.decidesOnKnownInputs(c.VerifDir, s.Fn, s.Atoms) {
 			desc += ": not in the table, but it decides only on inputs this function's reviewed branches already decide on (a restructured conditional)"
 		} else {
 			viol = fmt.Sprintf("%s: %s returns early without an error under a condition [%s] that is not in the reviewed table (tables/earlyexits.json) and decides on inputs the reviewed function never branched on (%v): whatever the rest of the function contributes for this element (metadata, graph nodes and edges, diagnostics) silently does not happen", w.pos(s.Pos.Pos()), s.Fn, s.Cond, w.unknownInputs(c.VerifDir, s.Fn, s.Atoms))
